@@ -10,6 +10,7 @@
    witnesses of both findings - are replayed on a real clock through the manager/renderer, the reader
    parked at clk.read.mid and the audio thread at clk.pub.mid / clk.reset.mid.
 3. TLC validates every recorded session against P_C05 (T_C05.tla)."""
+import json
 import os
 import random
 
@@ -20,7 +21,7 @@ MANIFEST = dict(
     level="model_checking", design_ref="DESIGN.md 8 (C05), 7 (Clock), Appendix A.4",
     technique="TLA+ model of the clock (TLC: all command histories x callback/chunk partitions, reader/publisher interleavings at word granularity) against an exact reference; TLC schedules replayed on the real clock through cfg(kira_verif) yield points; TLC trace validation against P_C05; two known findings matched by signature",
     text="TLC checks that for every history of start/pause/stop/speed commands (immediate, or delayed by some frames of audio time that pass whether or not the clock ticks) and every partition of time into callbacks and internal chunks the published time equals speed x running time at a chunk boundary, that a sound scheduled for a clock time starts in the chunk during which the ticking clock reaches it (never late, never while paused or short), and explores every interleaving of a two-word time() read with the audio thread's two-word publication. Generated schedules are forced onto the real clock; every recorded session is validated by TLC against the same reference.",
-    note="Speeds and times are dyadic (1/4 tick units) so comparisons are exact. Speed changes are zero-length tweens, immediate or delayed by a number of frames; tweens of non-zero duration are not generated (the code integrates them stepwise per chunk; the statement gives no tolerance). A stop() overlapping a callback's command reads is explored at the granularity of its two command writes (cmd.w / cmd.r yield points); a stop() overlapping a time() read (second writer of the two published words) is not. Known findings D10 (torn read) and D11 (own-time speed change never fires) are listed in known_findings.json; the missing-clock cancellation is covered by C03.")
+    note="Speeds and times are dyadic (1/4 tick units) so comparisons are exact. Speed changes in the clock model are zero-length tweens, immediate or delayed by a number of frames; tweens of non-zero length (1-7 buffers, both units on either side) are observed buffer by buffer and judged by TLC against the reference integral with a tolerance of a few 1e-4 ticks (P_C05T) (the code integrates them stepwise per chunk; the statement gives no tolerance). A stop() overlapping a callback's command reads is explored at the granularity of its two command writes (cmd.w / cmd.r yield points); a stop() overlapping a time() read (second writer of the two published words) is not. Known findings D10 (torn read) and D11 (own-time speed change never fires) are listed in known_findings.json; the missing-clock cancellation is covered by C03.")
 
 
 def cfg(b, ns, speeds, targets, maxcmd, maxcb, maxrd, maxsched, own, extra, spec=None, delays=(), racy=False, reset_first=True):
@@ -145,7 +146,19 @@ def run(tier):
     bad, _ = tlc_validate("T_C05.tla", os.path.join(SPEC, "T_C05.cfg"), tp)
     judge(res, PROP, scen, tp, bad)
     res.drift += drift_of(scen, sessions_of(read_ndjson(tp)))
-    res.evaluations = len(scen)
+    # ---- speed tweens of non-zero length (Gen_SpeedTween.tla / P_C05T.tla): linear in the unit of the target
+    tcfg = write_cfg("Gen_SpeedTween.cfg", "SPECIFICATION Spec\nINVARIANT Dump\nCHECK_DEADLOCK FALSE\n")
+    tscen = [dict(b[0], mode="tween", src="tlc-product") for b in tlc_generate("Gen_SpeedTween.tla", tcfg, "bfs", timeout=600, tag="c05t")]
+    tscen = [x for x in tscen if (x["u0"], x["v0n"], x["v0d"]) != (x["u1"], x["v1n"], x["v1d"])]
+    if tier == "quick":
+        tscen = [x for k, x in enumerate(sorted(tscen, key=lambda x: json.dumps(x, sort_keys=True))) if k % 4 == seed() % 4]
+    tsp, ttp = os.path.join(OUT, "c05", "tween_scen.ndjson"), os.path.join(OUT, "c05", "tween_trace.ndjson")
+    write_ndjson(tsp, tscen)
+    run_kv("c05", tsp, ttp)
+    tbad, _ = tlc_validate("T_C05T.tla", os.path.join(SPEC, "T_C05T.cfg"), ttp, tag="c05ttv")
+    judge(res, PROP, tscen, ttp, tbad)
+    res.notes["speed_tween_sessions"] = len(tscen)
+    res.evaluations = len(scen) + len(tscen)
     for sc in scen:
         res.distinct.add(behaviour_hash([sc["b"], sc["speed0"], [(s["act"], s.get("c"), s.get("v"), s.get("w"), s.get("n")) for s in sc["steps"]]]))
     res.samples = [{"b": s["b"], "src": s["src"], "steps": [[x["act"], x.get("c"), x.get("v"), x.get("w"), x.get("n")] for x in s["steps"]][:30]}
